@@ -310,6 +310,7 @@ func (w *World) finalChecks(replay bool) {
 		return
 	}
 	w.finalRelayerChecks()
+	w.checkForeignEngineCalls("the last step")
 }
 
 // write-ahead log of the plan being generated (C19: a crash of the worker process is what a crash
